@@ -12,6 +12,9 @@ def _copy_symdict(d):
     return SymDict([(k, _copy_symdict(v) if isinstance(v, SymDict) else v) for k, v in d.items], d.auto)
 
 
+ALLOC_T = z3.Function('alloc_t', Ref, z3.IntSort())
+
+
 class State:
     __slots__ = ('pc', 'locals', 'heap', 'log', 'guards', 'pending', 'ghost', 'ctrl')
 
@@ -235,12 +238,17 @@ class CoreMixin:
         for other in self.allocated:
             st.pc.append(r != other)
         self.allocated.append(r)
+        # allocation time stamp (ghost): lets a loop invariant say that the objects collected so far are OLDER than anything allocated later
+        now = st.ghost.get('$now', z3.IntVal(0))
+        st.pc.append(ALLOC_T(r) == now)
+        st.ghost['$now'] = now + 1
         return Obj(r, cls, kind, elem, ndim)
 
     def alloc_axioms(self):
         """Well-formed entry heap: everything the entry heap stores is allocated at entry."""
         ax = [alloc0(NONE)]
         r = z3.Const('r!q', Ref)
+        ax.append(z3.ForAll([r], z3.Implies(alloc0(r), ALLOC_T(r) < 0)))
         i = z3.Int('i!q')
         j = z3.Int('j!q')
         for fid, h in self.heap0.items():
